@@ -57,6 +57,8 @@ func atomsFor(s *gen.Schema) []atom {
 		return []atom{{"id = %s", []interface{}{2}}, {"id <= %s", []interface{}{2}}, {"name = %s", []interface{}{"c"}}, {"cnt > %s", []interface{}{15}}}
 	case "s5":
 		return []atom{{"id = %s", []interface{}{int64(1)}}, {"email = %s", []interface{}{"b@x"}}, {"score > %s", []interface{}{0.05}}, {"id IN (%s, %s)", []interface{}{int64(3), int64(4)}}}
+	case "s7":
+		return []atom{{"id = %s", []interface{}{2}}, {"ref_id = %s", []interface{}{10}}, {"idx >= %s", []interface{}{200}}, {"ref_id IS NULL", nil}}
 	}
 	return nil
 }
@@ -100,6 +102,8 @@ func setsFor(s *gen.Schema) []atom {
 		return []atom{{"cnt = %s", []interface{}{5}}, {"note = %s, cnt = cnt + %s", []interface{}{"nn", 2}}}
 	case "s5":
 		return []atom{{"score = %s", []interface{}{4.5}}, {"memo = %s, email = %s", []interface{}{"mm", "z@x"}}}
+	case "s7":
+		return []atom{{"ref_id = %s", []interface{}{5}}, {"idx = idx + %s, ref_id = %s", []interface{}{1, 6}}}
 	}
 	return nil
 }
